@@ -53,3 +53,12 @@ CASES += [
     t("operators copied with numpy.array", R,
       "        KI = self.sbi.KK.copy()", "        KI = numpy.array(self.sbi.KK)"),
 ]
+
+CASES += [
+    {"name": "Lambda operators skipped beyond the single-exciton band (the repaired defect)", "kind": "mutant", "rule": "C06-R5", "edits": [
+        ("quantarhei/qm/liouvillespace/redfieldtensor.py", "            if True:\n                ns = ms\n", "            if not multi_ex:\n                ns = ms\n", 1)]},
+    {"name": "acceptor reorganisation energy in the donor's place", "kind": "mutant", "rule": "C06-R7", "edits": [
+        ("quantarhei/qm/liouvillespace/tdfoerstertensor.py", "                                             ed, ea, ll[b])", "                                             ed, ea, ll[a])", 1)]},
+    {"name": "line-shape functions passed donor first", "kind": "twin", "edits": [
+        ("quantarhei/qm/liouvillespace/rates/foersterrates.py", "_fintegral(tt, gt[a,:], gt[b,:],", "_fintegral(tt, gt[b,:], gt[a,:],", 1)]},
+]
